@@ -6,7 +6,7 @@ inputs, in double and in float (the model then runs with a NumOps rounding every
 import os, sys, math, struct
 from vlib import *
 
-PROPS = ['Props/Properties_C27.v', 'Props/Properties_C27Q.v', 'Props/Properties_C27X.v', 'Props/Properties_C27A.v']
+PROPS = ['Props/Properties_C27.v', 'Props/Properties_C27Q.v', 'Props/Properties_C27X.v', 'Props/Properties_C27A.v', 'Props/Properties_C27R.v', 'Props/Properties_C27T.v']
 EXTRACT = '''From Coq Require Import Extraction ExtrOcamlBasic.
 Require Import Num Vec rot27_gen C27_Model.
 Extraction Language OCaml.
@@ -80,6 +80,11 @@ def make_cases(rng, flt, n):
         cases.append((op, [g.rd(x) for x in args]))
     for a in range(3):
         for b in range(3): add('axis', a, b)
+    cp = os.path.join(VERIF, 'corpus', 'C27', 'edge_cases.txt')      # regression / edge cases first
+    if os.path.exists(cp):
+        for line in open(cp):
+            t = line.split()
+            if t and not line.startswith('#'): add(t[0], [float(x) for x in t[1:]])
     for _ in range(n):
         a = g.angle(); c, s = math.cos(a), math.sin(a)
         add('setX', g.junk(), c, s); add('setY', g.junk(), c, s); add('setZ', g.junk(), c, s)
@@ -154,8 +159,8 @@ def correspondence(ctx, n):
             if not ok: dis.append((op, args, fa, fb))
             perop[op] = perop.get(op, 0) + 1
             if any(x not in (0.0, 1.0) for x in fa): nontrivial.add((op, tuple(args)))
-        ctx.add_cases(len(cases), len(nontrivial), [{'precision': 'float' if flt else 'double', 'op': cases[40][0], 'args': cases[40][1],
-                                                      'cxx': parse_floats(l1[40]), 'model': parse_floats(l2[40])}])
+        ctx.add_cases(len(cases), len(nontrivial), [{'precision': 'float' if flt else 'double', 'op': cases[-1][0], 'args': cases[-1][1],
+                                                      'cxx': parse_floats(l1[-1]), 'model': parse_floats(l2[-1])}])
         info['float' if flt else 'double'] = {'cases': len(cases), 'ops': len(perop), 'disagreements': len(dis), 'rtol': rtol, 'cases_per_op': perop}
         if dis:
             op, args, fa, fb = dis[0]
